@@ -152,44 +152,39 @@ def segmentMean (rows : List Bin) (skipLow : Bool) : Option Rat :=
     some (sumRat (kept.map (fun b => b.log2 * b.weight)) / sumRat (kept.map (·.weight)))
   else some (sumRat (kept.map (·.log2)) / (kept.length : Rat))
 
-/-- a row of the genemetrics table -/
+/-- a row of the genemetrics table; `depth = none` records that
+    `np.average(depth, weights=weight)` raised (the weights sum to zero) -/
 structure GRow where
   gene : String
   chrom : String
   s : Int
   e : Int
   log2 : Option Rat
-  depth : Rat
+  depth : Option Rat
   weight : Rat
   probes : Nat
   segWeight : Option Rat := none
   segProbes : Option Int := none
 deriving Repr, DecidableEq, Inhabited
 
-inductive Err | zeroDivision
-deriving Repr, DecidableEq
-
-/-- one output row of `group_by_genes` for the group `(gene, rows)`;
-    `np.average(depth, weights=weight)` raises when the weights sum to zero -/
-def groupRow (gene : String) (rows : List Bin) (skipLow : Bool) : Except Err (Option GRow) :=
+/-- one output row of `group_by_genes` for the group `(gene, rows)` -/
+def groupRow (gene : String) (rows : List Bin) (skipLow : Bool) : Option GRow :=
   match rows, rows.getLast? with
   | first :: _, some last =>
     let w := sumRat (rows.map (·.weight))
-    if w == 0 then .error .zeroDivision
-    else .ok (some { gene := gene, chrom := first.chrom, s := first.s, e := last.e,
-                     log2 := segmentMean rows skipLow,
-                     depth := sumRat (rows.map (fun b => b.depth * b.weight)) / w,
-                     weight := w, probes := rows.length })
-  | _, _ => .ok none
+    some { gene := gene, chrom := first.chrom, s := first.s, e := last.e,
+           log2 := segmentMean rows skipLow,
+           depth := if w == 0 then none else some (sumRat (rows.map (fun b => b.depth * b.weight)) / w),
+           weight := w, probes := rows.length }
+  | _, _ => none
 
 /-- the names `group_by_genes` skips: `("", nan) + ANTITARGET_ALIASES` -/
 def skipNames : List String := "" :: Generated.ANTITARGET_ALIASES
 
 /-- `group_by_genes(cnarr, skip_low)` -/
-def groupByGenes (t : List Bin) (skipLow : Bool) (pre : Bool := false) : Except Err (List GRow) := do
-  let rows ← ((byGeneV pre defaultIgnore t).filter (fun p => !p.2.isEmpty && !skipNames.contains p.1)).mapM
+def groupByGenes (t : List Bin) (skipLow : Bool) (pre : Bool := false) : List GRow :=
+  ((byGeneV pre defaultIgnore t).filter (fun p => !p.2.isEmpty && !skipNames.contains p.1)).filterMap
     (fun p => groupRow p.1 p.2 skipLow)
-  pure (rows.filterMap id)
 
 /-- `chr_x_label` -/
 def xLabel (firstChrom : Option String) : String :=
@@ -228,10 +223,9 @@ def reaches (v : Option Rat) (thr : Rat) : Bool :=
   | some x => decide (ratAbs x ≥ thr)
   | none => false
 
-/-- `gene_metrics_by_gene` -/
-def metricsByGene (t : List Bin) (thr : Rat) (skipLow : Bool) (pre : Bool := false) : Except Err (List GRow) := do
-  let rows ← groupByGenes t skipLow pre
-  pure (rows.filter (fun r => reaches r.log2 thr && r.gene != ""))
+/-- `gene_metrics_by_gene`: the rows it yields -/
+def metricsByGene (t : List Bin) (thr : Rat) (skipLow : Bool) (pre : Bool := false) : List GRow :=
+  (groupByGenes t skipLow pre).filter (fun r => reaches r.log2 thr && r.gene != "")
 
 /-- the bins `cnarr.by_ranges(segments)` hands out for one segment: outer selection on the
     segment's chromosome (contract proved for the slicing code in C07: `C07.outer_exact`) -/
@@ -242,13 +236,15 @@ def binsOfSegment (t : List Bin) (sg : SegRow) : List Bin :=
 def segsInOrder (segs : List SegRow) : List SegRow :=
   (firstKeys (segs.map (·.chrom))).flatMap (fun c => segs.filter (fun sg => sg.chrom == c))
 
+/-- the rows `gene_metrics_by_segment` yields for one segment -/
+def segmentPart (t : List Bin) (skipLow : Bool) (pre : Bool) (sg : SegRow) : List GRow :=
+  (groupByGenes (binsOfSegment t sg) skipLow pre).map
+    (fun r => { r with log2 := some sg.log2, segWeight := sg.weight, segProbes := sg.probes })
+
 /-- `gene_metrics_by_segment` -/
 def metricsBySegment (t : List Bin) (segs : List SegRow) (thr : Rat) (skipLow : Bool)
-    (pre : Bool := false) : Except Err (List GRow) := do
-  let parts ← ((segsInOrder segs).filter (fun sg => decide (ratAbs sg.log2 ≥ thr))).mapM (fun sg => do
-    let rows ← groupByGenes (binsOfSegment t sg) skipLow pre
-    pure (rows.map (fun r => { r with log2 := some sg.log2, segWeight := sg.weight, segProbes := sg.probes })))
-  pure parts.flatten
+    (pre : Bool := false) : List GRow :=
+  ((segsInOrder segs).filter (fun sg => decide (ratAbs sg.log2 ≥ thr))).flatMap (segmentPart t skipLow pre)
 
 /-- the `min_probes` filter at the end of `do_genemetrics`: on `segment_probes` when that
     column exists, else on `probes` -/
@@ -260,16 +256,24 @@ def minProbesFilter (rows : List GRow) (minProbes : Nat) : List GRow :=
       | none => false)
   else rows.filter (fun r => decide (r.probes ≥ minProbes))
 
+inductive Err | zeroDivision
+deriving Repr, DecidableEq
+
 /-- `do_genemetrics(cnarr, segments, threshold, min_probes, skip_low, is_haploid_x_reference,
-    is_sample_female)`; `isXX` is the given or guessed sex (guessing is C15's subject) -/
+    is_sample_female)`; `isXX` is the given or guessed sex (guessing is C15's subject).
+    The call raises when `group_by_genes` meets a group whose weights sum to zero. -/
 def doGenemetrics (t : List Bin) (segs : Option (List SegRow)) (thr : Rat) (minProbes : Nat)
-    (skipLow hapX : Bool) (isXX : Option Bool) (pre : Bool := false) : Except Err (List GRow) := do
+    (skipLow hapX : Bool) (isXX : Option Bool) (pre : Bool := false) : Except Err (List GRow) :=
   let t' := shiftBins t hapX isXX
-  let rows ← match segs with
-    | some sg => if sg.isEmpty then metricsByGene t' thr skipLow pre
-                 else metricsBySegment t' (shiftSegs sg hapX isXX) thr skipLow pre
-    | none => metricsByGene t' thr skipLow pre
-  pure (minProbesFilter rows minProbes)
+  let bySeg := match segs with
+    | some sg => !sg.isEmpty
+    | none => false
+  -- every row `group_by_genes` computes on the way, and the rows that are reported
+  let computed := if bySeg then metricsBySegment t' (shiftSegs (segs.getD []) hapX isXX) thr skipLow pre
+    else groupByGenes t' skipLow pre
+  let rows := if bySeg then computed else metricsByGene t' thr skipLow pre
+  if computed.any (fun r => r.depth.isNone) then .error .zeroDivision
+  else .ok (minProbesFilter rows minProbes)
 
 /-! ### squash_genes -/
 
